@@ -24,7 +24,7 @@ from . import common as C
 warnings.filterwarnings("ignore")
 PID = "C18"
 META = None           # the spec's tables (atoms, nodes, units, functions), set before the pool forks
-OPTS = {"embed_every": 1}
+OPTS = {"open_tags": []}     # tags of the findings that are still open: they switch the machine's deviations on
 
 NUM_CFGS = [1, 2, 3, 4]
 LOG_CFGS = [1, 2, 3, 4, 5, 6, 7, 8]
@@ -40,6 +40,7 @@ def cfg_text(mode, maxlen, prune, source, cfgs, emit=True, emitmax=99):
   Emit = {C.tla_str(bool(emit))}
   Cfgs = {C.tla_str(set(cfgs))}
   EmitMax = {emitmax}
+  OpenDevs = {C.tla_str(set(OPTS["open_tags"]))}
 INIT Init
 NEXT Next
 INVARIANT Refines
@@ -488,7 +489,8 @@ def replay_num(rec):
     #  so ' - ' can only be written as an operator in the middle of a text)
     edge = any((toks[i] in NUM_OP) and (i == 0 or toks[i - 1] in ("(", "f1(", "pow(", ",") or i + 1 == len(toks)
                                         or toks[i + 1] in (")", ",")) for i in range(len(toks)))
-    if m["k"] != "skip" and "custom_unit_env" not in rec["tags"] and not (cls == "ill" and (m["k"] == "raise" or edge)):
+    custom_broken = "custom_unit_env" in rec["tags"] and "custom_unit_env" in OPTS["open_tags"]
+    if m["k"] != "skip" and not custom_broken and not (cls == "ill" and (m["k"] == "raise" or edge)):
         mexp = out_value(m, fns)
         if mexp[0] in ("val", "raise"):
             o = obs_num_base(kind, text, rec["mdim"]) if mexp[0] == "val" else obs_num(kind, text, None)
@@ -720,6 +722,7 @@ def run(replay=None):
     t = C.tier()
     sd = C.seed()
     runs, ndeep = plan(t, sd)
+    OPTS["open_tags"] = sorted({tg for f in V.findings.open for tg in f.get("tags", [])})
     only = os.environ.get("VERIF_C18_MODES")          # development aid: restrict to some families
     if only:
         runs = [r for r in runs if r[0] in only.split(",")]
